@@ -9,8 +9,12 @@ namespace Model.Writers
 /-- the thread's transaction changes the zone and commits -/
 def willCommit (c : Cfg) (t : Tid) : Bool := c.role t == .writer true
 
-/-- serial application of transaction bodies, starting from the empty zone -/
-def applyTxns (c : Cfg) (ts : List Tid) : Content := ts.foldl (fun acc t => c.body t acc) []
+/-- what a transaction starts from: the zone as of its admission, or nothing for `writer(replacement=True)` -/
+def baseOf (c : Cfg) (t : Tid) (zone : Content) : Content := if c.repl t then [] else zone
+
+/-- serial application of transaction bodies, starting from the empty zone (a replacement transaction discards what
+was there) -/
+def applyTxns (c : Cfg) (ts : List Tid) : Content := ts.foldl (fun acc t => c.body t (baseOf c t acc)) []
 
 /-- admitted transactions that commit, in admission order -/
 def admittedCommitters (c : Cfg) (s : State) : List Tid := s.admitted.filter (willCommit c)
@@ -30,8 +34,8 @@ def nAppended (s : State) : Nat :=
 structure InvSer (c : Cfg) (s : State) : Prop where
   nodes : s.nodes = applyTxns c s.committed
   ac : admittedCommitters c s = s.committed ++ curCommitter c s
-  snapA : ∀ t, snapAPc (s.loc t).pc = true → (s.loc t).snap = s.nodes
-  snapB : ∀ t, commitPc (s.loc t).pc = true → (s.loc t).snap = c.body t s.nodes
+  snapA : ∀ t, snapAPc (s.loc t).pc = true → (s.loc t).snap = baseOf c t s.nodes
+  snapB : ∀ t, commitPc (s.loc t).pc = true → (s.loc t).snap = c.body t (baseOf c t s.nodes)
   vid : ∀ t, vidPc (s.loc t).pc = true → (s.loc t).vid = s.versions.length + 1
   role : ∀ t, commitPc (s.loc t).pc = true → willCommit c t = true
   versions : ∀ i v, s.versions[i]? = some v → v = (i + 1, applyTxns c ((admittedCommitters c s).take i))
@@ -56,7 +60,7 @@ macro "pres_ser " s:ident hL:ident h:ident t:ident u:ident old:term : tactic =>
     first
     | (subst hu; simp; done)
     | (simp only [setLoc_loc, if_neg hu, setLoc_nodes, setLoc_versions]; exact $old)
-    | (ser_facts $s $hL $h $t; ser_facts $s $hL $h $u; (simp_all [willCommit] <;> grind))))
+    | (ser_facts $s $hL $h $t; ser_facts $s $hL $h $u; (simp_all [willCommit, baseOf] <;> grind))))
 
 theorem versions_ne_nil (h : InvSer c s) : s.versions ≠ [] := by
   intro e; have hl := h.vlen; rw [e] at hl; simp at hl; omega
@@ -82,12 +86,12 @@ theorem lastId_eq (h : InvSer c s) : s.lastId = s.versions.length := by
 
 set_option maxHeartbeats 1000000 in
 theorem snapA_step (hL : InvLock s) (h : InvSer c s) (htr : Trans c s t s') :
-    ∀ u, snapAPc (s'.loc u).pc = true → (s'.loc u).snap = s'.nodes := by
+    ∀ u, snapAPc (s'.loc u).pc = true → (s'.loc u).snap = baseOf c u s'.nodes := by
   cases htr <;> intro u <;> pres_ser s hL h t u (h.snapA u)
 
 set_option maxHeartbeats 1000000 in
 theorem snapB_step (hL : InvLock s) (h : InvSer c s) (htr : Trans c s t s') :
-    ∀ u, commitPc (s'.loc u).pc = true → (s'.loc u).snap = c.body u s'.nodes := by
+    ∀ u, commitPc (s'.loc u).pc = true → (s'.loc u).snap = c.body u (baseOf c u s'.nodes) := by
   cases htr <;> intro u <;> pres_ser s hL h t u (h.snapB u)
 
 set_option maxHeartbeats 1000000 in
@@ -101,7 +105,8 @@ theorem role_step (hL : InvLock s) (h : InvSer c s) (htr : Trans c s t s') :
     ∀ u, commitPc (s'.loc u).pc = true → willCommit c u = true := by
   cases htr <;> intro u <;> pres_ser s hL h t u (h.role u)
 
-theorem applyTxns_snoc (c : Cfg) (ts : List Tid) (t : Tid) : applyTxns c (ts ++ [t]) = c.body t (applyTxns c ts) := by
+theorem applyTxns_snoc (c : Cfg) (ts : List Tid) (t : Tid) :
+    applyTxns c (ts ++ [t]) = c.body t (baseOf c t (applyTxns c ts)) := by
   simp [applyTxns, List.foldl_append]
 
 theorem nodes_step (hL : InvLock s) (h : InvSer c s) (htr : Trans c s t s') : s'.nodes = applyTxns c s'.committed := by
